@@ -22,7 +22,7 @@ import (
 
 	"verif/engines/proxy/be"
 	"verif/internal/mon"
-	"verif/internal/svc"
+	"verif/internal/vschema"
 	"verif/internal/wire"
 )
 
@@ -51,7 +51,12 @@ type Env struct {
 	CC    *grpc.ClientConn // grpc-go client of the front
 	HC    *http.Client     // HTTP/1.1
 	H2    *http.Client     // prior-knowledge h2c, used for bidi (HTTP/1 is half-duplex)
-	seq   atomic.Int64
+	IP    *http.Client     // in-process: requests handed to Mux.ServeHTTP
+	// Local serves the same scripted implementation registered directly on a
+	// second Mux: the reference for what a WebSocket client observes.
+	LocalMux   *larking.Mux
+	LocalFront *wire.Server
+	seq        atomic.Int64
 	// WantDump: capture larking's goroutines shortly before a proxied call
 	// hits the deadline (set while hangs are re-executed and in replays).
 	WantDump atomic.Bool
@@ -64,6 +69,9 @@ func (e *Env) Close() {
 	if e.Front != nil {
 		e.Front.Close()
 	}
+	if e.LocalFront != nil {
+		e.LocalFront.Close()
+	}
 	if e.Back != nil {
 		e.Back.Close()
 	}
@@ -72,13 +80,13 @@ func (e *Env) Close() {
 // NewEnv starts the back-end, registers it on a fresh Mux through
 // RegisterConn (descriptor discovery by reflection) and serves the Mux.
 func NewEnv() (*Env, error) {
-	std, err := svc.BuildStd("vf.px", "vf/px.proto", "/px")
+	sd, err := pxService()
 	if err != nil {
 		return nil, err
 	}
 	e := &Env{Reg: NewRegistry()}
 	impl := &Scripted{Reg: e.Reg, Tag: "be"}
-	if e.Back, err = be.Start("be", true, be.Svc{SD: std.SD, Impl: impl}); err != nil {
+	if e.Back, err = be.Start("be", true, be.Svc{SD: sd, Impl: impl}); err != nil {
 		return nil, err
 	}
 	if e.Mux, err = larking.NewMux(); err != nil {
@@ -106,6 +114,25 @@ func NewEnv() (*Env, error) {
 	}
 	e.HC = &http.Client{Transport: &http.Transport{DisableCompression: true, MaxIdleConnsPerHost: 64, MaxConnsPerHost: 0}}
 	e.H2 = wire.H2CClient()
+	e.IP = &http.Client{Transport: inproc{e.Mux}}
+
+	reg, err := vschema.Registry(sd.ParentFile())
+	if err != nil {
+		e.Close()
+		return nil, err
+	}
+	if e.LocalMux, err = larking.NewMux(larking.FilesOption(reg)); err != nil {
+		e.Close()
+		return nil, err
+	}
+	if err := larking.VerifRegisterService(e.LocalMux, vschema.ServiceDesc(sd, impl), struct{}{}); err != nil {
+		e.Close()
+		return nil, fmt.Errorf("local registration: %w", err)
+	}
+	if e.LocalFront, err = wire.StartLarking(e.LocalMux, nil); err != nil {
+		e.Close()
+		return nil, err
+	}
 	return e, nil
 }
 
@@ -123,11 +150,15 @@ type Result struct {
 	DirectC ClientT `json:"direct_client"`
 	ProxyB  BackT   `json:"proxied_backend"`
 	ProxyC  ClientT `json:"proxied_client"`
-	Diffs   []Diff  `json:"diffs,omitempty"`
-	Incon   string  `json:"inconclusive,omitempty"`
-	Dump    string  `json:"larking_goroutines,omitempty"`
-	DirectT string  `json:"direct_time"`
-	ProxyT  string  `json:"proxied_time"`
+	// WebSocket scripts: the same client against the locally registered
+	// implementation
+	LocalB  *BackT   `json:"local_backend,omitempty"`
+	LocalC  *ClientT `json:"local_client,omitempty"`
+	Diffs   []Diff   `json:"diffs,omitempty"`
+	Incon   string   `json:"inconclusive,omitempty"`
+	Dump    string   `json:"larking_goroutines,omitempty"`
+	DirectT string   `json:"direct_time"`
+	ProxyT  string   `json:"proxied_time"`
 }
 
 var reGoroutine = regexp.MustCompile(`(?m)^goroutine \d+ \[`)
@@ -189,6 +220,23 @@ func (e *Env) Exec(s *Script) *Result {
 		return res
 	}
 
+	if s.Front == "ws" {
+		// reference for what a WebSocket client observes: the same script
+		// against the locally registered implementation
+		lid := e.callID("l")
+		lrec := e.Reg.New(lid)
+		lctx, lcancel := context.WithTimeout(context.Background(), callTimeout)
+		lc := runWS(lctx, e.LocalFront.Addr, s, lid)
+		lcancel()
+		lb := collect(lrec, 3*time.Second)
+		e.Reg.Forget(lid)
+		res.LocalB, res.LocalC = &lb, &lc
+		if lc.TimedOut || lc.TransportErr != "" {
+			res.Incon = fmt.Sprintf("local WebSocket execution did not complete normally (%+v): nothing to compare the close with", lc)
+			return res
+		}
+	}
+
 	// proxied execution
 	pid := e.callID("p")
 	prec := e.Reg.New(pid)
@@ -223,7 +271,12 @@ func (e *Env) Exec(s *Script) *Result {
 		if s.Shape == "bidi" || streamed(s) {
 			hc = e.H2
 		}
+		if s.InProc {
+			hc = e.IP
+		}
 		res.ProxyC = runHTTP(pctx, hc, e.Front.URL, s, pid)
+	} else if s.Front == "ws" {
+		res.ProxyC = runWS(pctx, e.Front.Addr, s, pid)
 	} else if s.Front == "web" {
 		res.ProxyC = runWeb(pctx, e.H2, e.Front.URL, s, pid)
 	} else {
@@ -310,6 +363,12 @@ func detClass(s *Script) string { return fmt.Sprintf("details=%d", s.Final.Det) 
 
 func nClass(s *Script) string {
 	c := s.Fam
+	if s.Hop != "" {
+		c += ",hop=" + s.Hop
+	}
+	if s.InProc {
+		c += ",in-process"
+	}
 	if s.NMsg == 0 {
 		c += ",n=0"
 	}
@@ -365,6 +424,19 @@ func compare(s *Script, r *Result) []Diff {
 		} else {
 			add("responses", nClass(s), "response messages: proxied %v direct %v", pc.Responses, dc.Responses)
 		}
+	}
+	if s.Front == "ws" {
+		// The close frame is compared with what the locally registered
+		// implementation makes a WebSocket client see for the same script.
+		if pc.BodyErr != "" {
+			add("ws-frame", nClass(s), "%s", pc.BodyErr)
+		}
+		lc := r.LocalC
+		if lc != nil && (pc.WSCode != lc.WSCode || pc.WSReason != lc.WSReason || (pc.WSEnd == "") != (lc.WSEnd == "")) {
+			add("ws-close", nClass(s), "close through the proxy: code %d reason %q %s; same script on a locally registered handler: code %d reason %q %s (back-end status %s %q)",
+				pc.WSCode, pc.WSReason, pc.WSEnd, lc.WSCode, lc.WSReason, lc.WSEnd, codes.Code(dc.Code), dc.Msg)
+		}
+		return ds
 	}
 	if s.Front == "http" {
 		if pc.BodyErr != "" {
@@ -433,7 +505,7 @@ func shapeKey(s *Script, r *Result) string {
 	if len(r.DirectB.Inv) == 1 {
 		hc = fmt.Sprint(r.DirectB.Inv[0].EOFAfter >= 0)
 	}
-	return fmt.Sprintf("%s/%s/%s/n=%d/%s/halfclose-seen=%s/md=%s/gzip=%v", s.Front, s.Shape, s.Fam, s.NMsg, out, hc, s.MDClass, s.Gzip)
+	return fmt.Sprintf("%s/%s/%s/n=%d/%s/halfclose-seen=%s/md=%s/gzip=%v/hop=%s/inproc=%v", s.Front, s.Shape, s.Fam, s.NMsg, out, hc, s.MDClass, s.Gzip, s.Hop, s.InProc)
 }
 
 func report(r *mon.Run, res *Result) {
